@@ -130,13 +130,20 @@ class Checker:
             eng.pc, eng.in_spec, eng.ghost_env = [], 0, {}
             eng.env = c.env(w)
             eng.old_env = eng.env
+            from .engine import _has_quantifier
             s = z3.Solver()
-            s.set('timeout', 10000)
+            s.set('timeout', 5000)
+            # quantified axioms are left out (a subset of the hypotheses being satisfiable is what can be decided
+            # quickly; the quantified ones are the standard prefix-sum / calendar axioms)
             for label, r in c.req():
                 v = eng.spec(r)
-                s.add(z3.BoolVal(v) if isinstance(v, bool) else v)
+                v = z3.BoolVal(v) if isinstance(v, bool) else v
+                if not _has_quantifier(v):
+                    s.add(v)
             for r in c.defs:
-                s.add(eng.spec(r))
+                v = eng.spec(r)
+                if not _has_quantifier(v):
+                    s.add(v)
             r = s.check()
             out.append({'function': c.label, 'requires_satisfiable': str(r)})
             if r == z3.unsat:
@@ -152,10 +159,13 @@ class Checker:
             return self.undecided(str(err))
         except Exception as err:
             return self.undecided('engine crash: ' + repr(err) + ' ' + traceback.format_exc()[-800:].replace('\n', ' | '))
+        self.phase = {'generate_s': round(time.time() - self.t0, 1)}
         bounded_procs = self.start_bounded()
         obs = [it[2] for it in self.items]
+        t1 = time.time()
         discharge(obs, [it[3] for it in self.items], timeout_ms=self.timeout,
                   second_backend=(self.tier == 'thorough'))
+        self.phase['solve_s'] = round(time.time() - t1, 1)
         real = [it for it in self.items if it[2].kind != 'canary']
         canaries = [it for it in self.items if it[2].kind == 'canary']
         failed = [it for it in real if it[2].result['status'] != 'unsat']
@@ -376,6 +386,7 @@ class Checker:
                 'vacuity': vac, 'canaries': canary_report,
                 'known_findings': known, 'not_covered': not_covered, 'bounded': bounded,
                 'violations': violations,
+                'phases': getattr(self, 'phase', {}),
                 'engine_stats': {k: e.stats for k, (e, _) in getattr(self, 'engines', {}).items()},
             },
             'assumptions': assumptions,
